@@ -262,7 +262,14 @@ DOMNode *DOMAttrMapImpl::setNamedItemNS(DOMNode* arg)
 
     argImpl->fOwnerNode = fOwnerNode;
     argImpl->isOwned(true);
-    int i=findNamePoint(arg->getNamespaceURI(), arg->getLocalName());
+
+    // an attribute created with a DOM Level 1 method has no local name, it
+    // goes by its node name (see findNamePoint); looking for a null local
+    // name would match any other such attribute
+    const XMLCh* localName = arg->getLocalName();
+    if (localName == 0)
+        localName = arg->getNodeName();
+    int i=findNamePoint(arg->getNamespaceURI(), localName);
     DOMNode *previous=0;
     if(i>=0) {
         previous = fNodes->elementAt(i);
